@@ -2233,9 +2233,14 @@ class Interp:
             et = "int"
         elif isinstance(val, VStr):
             et = val.kind
+        elif isinstance(val, VTuple) and getattr(val, "ntname", None) in _values.NT_DEFS:
+            et = f"nt[{val.ntname}]"      # [NT(e1(x), ..) for x in xs]: a namedtuple built from pure field expressions
         else:
             return None
-        vz = self.truth(val) if et == "bool" else val.z
+        try:
+            vz = self.truth(val) if et == "bool" else (to_z3(val, et) if et.startswith("nt[") else val.z)
+        except Exception:
+            return None
         r = z3.Const(self.ctx.namer("mapped"), z3.SeqSort(vz.sort()))
         i = z3.Int(self.ctx.namer("i!cmp"))
         self.ctx.assume(z3.Length(r) == z3.Length(xs.z))
